@@ -92,6 +92,7 @@ static int manage_srcs(m_mod_t *mod, m_ctx_t *c, int flag, bool stop) {
                     */
                     flush_pubsub_msgs(NULL, NULL, mod);
                 }
+                unpoll_src(t);
                 ret = m_itr_rm(m_itr);
             } else {
                 ret = poll_set_new_evt(&c->ppriv, t, flag);
